@@ -4,6 +4,7 @@
 package hutil
 
 import (
+	"context"
 	"fmt"
 	"io"
 	"log/slog"
@@ -19,6 +20,39 @@ func QuietLogger() logger.StyledLogger {
 	slog.SetDefault(l)
 	return logger.NewPlainStyledLogger(l)
 }
+
+// HookLogger returns a StyledLogger that discards everything but calls hook for every record written
+// through a request-scoped logger (one that carries a request_id attribute), on the goroutine that
+// logs. Log statements along a request's path thereby become scheduling gates of the gate engine
+// without touching the code under test.
+func HookLogger(hook func(requestID, msg string)) logger.StyledLogger {
+	l := slog.New(&hookHandler{hook: hook})
+	slog.SetDefault(l)
+	return logger.NewPlainStyledLogger(l)
+}
+
+type hookHandler struct {
+	rid  string
+	hook func(requestID, msg string)
+}
+
+func (h *hookHandler) Enabled(context.Context, slog.Level) bool { return true }
+func (h *hookHandler) Handle(_ context.Context, r slog.Record) error {
+	if h.rid != "" {
+		h.hook(h.rid, r.Message)
+	}
+	return nil
+}
+func (h *hookHandler) WithAttrs(as []slog.Attr) slog.Handler {
+	rid := h.rid
+	for _, a := range as {
+		if a.Key == "request_id" {
+			rid = a.Value.String()
+		}
+	}
+	return &hookHandler{rid: rid, hook: h.hook}
+}
+func (h *hookHandler) WithGroup(string) slog.Handler { return h }
 
 // Endpoint builds a domain.Endpoint with consistent URL fields.
 func Endpoint(name string, port int, status domain.EndpointStatus, priority int) *domain.Endpoint {
